@@ -55,9 +55,21 @@ def run_property(pid, tier, seed, ctx_cache={}):
     floor = meta["floor"][tier]
     floor_ok = len(obs) >= floor
     # evidence
-    samples = [o.sample for o in good if o.sample][:6]
+    samples = [o.sample for o in good if o.sample]
+    # spread the samples over the corpus instead of taking the first few
+    if len(samples) > 6:
+        step = max(1, len(samples) // 6)
+        samples = samples[::step][:6]
     if not samples:
         samples = [{"obligation": o.key} for o in obs[:3]]
+    by_path = {}
+    for cn, m in facts.model.items():
+        for d in m["decls"]:
+            if d.get("kind") in ("struct", "enum"):
+                by_path.setdefault(d["path"], d)
+    for smp in samples:
+        if isinstance(smp, dict) and smp.get("decl") in by_path and "declaration" not in smp:
+            smp["declaration"] = judge.decl_text(by_path[smp["decl"]])[:600]
     shapes = ctx.shapes.get(pid, set())
     programs = ctx.programs.get(pid, set())
     ev = {
